@@ -217,12 +217,14 @@ theorem destructLeaf_ref (w : World) (t : Nat) :
 
 theorem destructFull_ref (w : World) (t : Nat) :
     destructFull w t =
-      if (hooksPhase w t).1.alive t then (destructLeaf (hooksPhase w t).1 t, (hooksPhase w t).2, true)
-      else ((hooksPhase w t).1, (hooksPhase w t).2, false) := by
+      if (hooksPhase w t).2.2 = .err then ((hooksPhase w t).1, (hooksPhase w t).2.1, .err)
+      else if (hooksPhase w t).1.alive t then (destructLeaf (hooksPhase w t).1 t, (hooksPhase w t).2.1, .ok)
+      else ((hooksPhase w t).1, (hooksPhase w t).2.1, .stop) := by
   unfold destructFull destructLeaf
   rw [gen_destructOrder_eq]
   simp only [List.foldl, fullPhase, leafPhase, if_true, List.nil_append]
-  cases (hooksPhase w t).1.alive t <;> simp
+  rcases hh : hooksPhase w t with ⟨w1, e1, st⟩
+  cases st <;> cases hat : w1.alive t <;> simp [hat]
 
 theorem cursorStep_ref (w : World) :
     cursorStep w = ({ w with idx := w.idx + 1 }, decide (w.idx + 1 = w.todo) || w.flag) := by
